@@ -8,6 +8,12 @@ package encoding
 // against the standard library source on every run (units of C09 with the
 // loops unrolled to the operand width and unwinding assertions on).
 
+// uvlen is only needed through its range outside the proofs of the
+// encoding/binary contracts (which reveal it).
+//@ func uvlen
+//@   opaque
+//@   axiom forall(v, uint64, 1 <= uvlen(v) && uvlen(v) <= 10) by verifLemma_uvlen_range
+
 //@ func uvLen
 //@   opaque at
 //@   extent uvLen
@@ -32,3 +38,46 @@ package encoding
 //@   pure
 //@   ensures implies(uvOK(buf, 0) && uvLen(buf, 0) <= len(buf), result0 == uvVal(buf, 0) && result1 == uvLen(buf, 0))
 //@   loop 1 unroll 11
+
+//@ func dpos
+//@   decreases j
+
+// "Element j fits": its offset and end lie inside the buffer. Stated per
+// element (with the offset term as trigger) so no induction is needed.
+
+//@ func MarshalDeltaCodedUint64s
+//@   requires forall(j, 0, len(vs), 0 <= dpos(vs, j) && dpos(vs, j) <= len(buffer) && dpos(vs, j) + uvlen(dE(vs, j)) <= len(buffer), dpos(vs, j))
+//@   modifies buffer
+//@   loop 1 modifies buffer
+//@   loop 1 invariant 0 <= rangeindex+1 && rangeindex+1 <= len(vs)
+//@   loop 1 invariant i == dpos(vs, rangeindex+1)
+//@   loop 1 invariant last == ite(rangeindex >= 0, int64(vs[rangeindex]), 0)
+//@   loop 1 invariant forall(j, 0, rangeindex+1, dAt(buffer, vs, j) && dpos(vs, j) + uvlen(dE(vs, j)) <= i, dpos(vs, j))
+//@   ensures result == dpos(vs, len(vs))
+//@   ensures forall(j, 0, len(vs), dAt(buffer, vs, j), dpos(vs, j))
+
+//@ func UnmarshalDeltaCodedUint64
+//@   ghost w []uint64
+//@   requires n == len(w) && base(vs) != base(w)
+//@   requires forall(j, 0, n, dAt(buffer, w, j) && 0 <= dpos(w, j) && dpos(w, j) <= len(buffer) && dpos(w, j) + uvlen(dE(w, j)) <= len(buffer), dpos(w, j))
+//@   loop 1 modifies vs
+//@   loop 1 invariant 0 <= j && j <= n && i == dpos(w, j) && len(vs) == j
+//@   loop 1 invariant last == ite(j > 0, int64(w[j-1]), 0)
+//@   loop 1 invariant base(vs) != base(w)
+//@   loop 1 invariant forall(k, 0, j, vs[k] == w[k])
+//@   ensures len(result0) == n && result1 == dpos(w, n)
+//@   ensures forall(k, 0, n, result0[k] == w[k])
+
+// The round-trip lemma holds for every buffer that is large enough for the
+// encoding (the exact space needed, not an over-approximation).
+//@ func verifLemma_C09_delta_uint64s
+//@   requires forall(j, 0, len(vs), 0 <= dpos(vs, j) && dpos(vs, j) <= len(buffer) && dpos(vs, j) + uvlen(dE(vs, j)) <= len(buffer), dpos(vs, j))
+
+// Zigzag coding is used abstractly in the sequence proofs: the two functions
+// are uninterpreted there, related only by the inverse law that
+// verifLemma_C10_zigzag proves from their bodies for every int64.
+//@ func ZigzagEncode
+//@   pure
+//@ func ZigzagDecode
+//@   pure
+//@   axiom forall(d, int64, ZigzagDecode(ZigzagEncode(d)) == d) by verifLemma_C10_zigzag
